@@ -252,12 +252,18 @@ MANIFEST_TEXT = {
                 "parseDoc_prefix -, it starts with its registered opener and ends with a non-'>' character before '>'), whatever parses contains a registered opener (parseMsg_needsOpener), the XML "
                 "declaration and newline between messages contain no opener (decide +kernel on the regenerated bytes); hence C02_wire / C02_wire': for ANY list of valid messages whose to_string() "
                 "fits the threshold (any length when disabled) and ANY partition of the concatenated bytes, the buffer model with the model parser delivers exactly the normal forms of the messages "
-                "whose last character has arrived, in order, once. Tied to buffer.py by a differential correspondence in which the model runs with the table "
+                "whose last character has arrived, in order, once. FOREIGN SPELLINGS (Spec/XmlSpell.lean, Proofs/SpellRT.lean, Proofs/SpellMsg.lean, Properties/Spellings.lean): a writer parametrised by a "
+                "spelling style (either quote style, white space before attributes / around '=' / before '>' / in end tags, <t></t> or <t/>, indentation before children and before the end tag, raw '>' "
+                "in text, reversed attribute order); run_spellElem / parseDoc_spell - the parser automaton reads EVERY such spelling of every acceptable element back as a specified element; "
+                "fromXml_spelled - that element is read by from_xml as the same message (constructors look keywords up by name; white space before the first child is swallowed - a decidable fact "
+                "about the regenerated class table); parseDoc_spell_prefix - no proper prefix of a spelling is a complete document; admissible_spelling; C02_spelled_stream - ANY stream of valid messages, "
+                "each in ANY spelling and preceded by ANY opener-free junk (declaration or not), under ANY fragmentation, is delivered exactly, in order, promptly. Tied to buffer.py by a differential correspondence in which the model runs with the table "
                 "of substrings the real parser accepts; oracle = Spec expectedCalls computed in Lean after checking StreamOk on the case.",
         "note": "Trusted: Lean kernel + standard axioms; the character-level model is tied to ElementTree/expat by the xml correspondence (ET.fromstring vs Xml.parseDoc on library output, five "
                 "foreign spellings, every truncation, grammar-based documents, mutations, word salad, every code-point class raw and as reference; ET.tostring vs Xml.serElem; Buffer with the real "
                 "parser vs the buffer model with the MODEL parser on the C02/C11 streams); inputs outside the modelled fragment (DOCTYPE, namespaces, non-ASCII names, encoding declarations) are "
-                "answered 'unsupported', counted and not compared. Foreign spellings are Admissible per case (executable streamOkB), not by theorem; tools/comp_buf.build_table.",
+                "answered 'unsupported', counted and not compared. Spelling styles outside the parametrised writer (comments or processing instructions inside the element, CDATA sections, character references for ordinary characters) are "
+                "Admissible per case (executable streamOkB) only; tools/comp_buf.build_table.",
         "technique": "Lean 4 proof by induction (well-founded process loop, session invariant) for an abstract parser, instantiated by theorem with a character-level automaton model of expat/ElementTree + differential correspondence (table-instantiated parser and model parser)",
     },
     "C11": {
@@ -383,11 +389,13 @@ MANIFEST_TEXT = {
                 "character-level model of ElementTree's writer and of expat + tree builder): run_serElem / parseDoc_serElem - the parser automaton reads the writer's output for EVERY element over XML "
                 "Char (ASCII names, no duplicate attribute, carriage return only in attribute values) back as the very same element (escaping of & < > \" CR LF TAB, character references for all "
                 "non-ASCII code points by induction over decimal digits); fromString_toString - from_string(to_string(m)) = from_xml(to_xml(m)) with the declaration and trailing newline regenerated "
-                "from the source; toString_fixed_point - the second and third serialisations are identical byte for byte. Tied to the code by the real "
+                "from the source; toString_fixed_point - the second and third serialisations are identical byte for byte; fromString_spelling - EVERY foreign spelling of the parametrised family (quote style, white "
+                "space, indentation, explicit or self-closing empty elements, raw '>', reversed attributes, any prolog that leaves the parser between tokens, trailing white space) of every valid "
+                "wire-safe message is read as that message's normal form. Tied to the code by the real "
                 "to_string/from_string round trip on all kinds x attribute subsets x children x character classes x five foreign spellings, compared with the model and judged by the Lean spec.",
         "note": "ElementTree's writer and expat are modelled (they are the standard library, not the repository): the model is tied to them by the xml correspondence (113 000 documents in the "
                 "thorough tier: library output, foreign spellings, truncations, grammar-based documents, mutations, every code-point class) with 'unsupported' for DOCTYPE/namespaces/non-ASCII names. "
-                "Foreign spellings are covered by the correspondence and the oracle, not by theorem. Trusted: kernel, translator, harness.msg_view.",
+                "Trusted: kernel, translator, harness.msg_view.",
         "technique": "Lean 4 theorems (element-level codec round trip generic in a regenerated class table; character-level round trip of a writer model through a parser automaton) + differential correspondence through the real XML writer and parser",
     },
     "C17": {
